@@ -157,6 +157,49 @@ func TestSampling(t *testing.T) {
 			}
 		}
 	}
+	// the variants that draw from the global generator: sizes and membership
+	for n := 0; n <= 8; n++ {
+		for k := 0; k <= n+1; k++ {
+			in := make([]int, n)
+			for i := range in {
+				in[i] = i
+			}
+			outs := map[string][]int{"Sample": xrand.Sample(n, k), "SampleSlice": xrand.SampleSlice(in, k), "SampleIterator": xrand.SampleIterator(iterator.Slice(in), k)}
+			ss, err := xrand.SampleStream(context.Background(), stream.FromIterator(iterator.Slice(in)), k)
+			if err != nil {
+				t.Fatalf("SampleStream: %v", err)
+			}
+			outs["SampleStream"] = ss
+			sh := append([]int{}, in...)
+			xrand.Shuffle(sh)
+			if k == n {
+				outs["Shuffle"] = sh
+			}
+			for fn, got := range outs {
+				c := SampleCase{Fn: fn, N: n, K: k, Samples: 1}
+				ok := vk.Direct(t, suite, "sampling", c, func(SampleCase) (vk.Outcome, error) {
+					want := k
+					if n < k {
+						want = n
+					}
+					seen := map[int]bool{}
+					for _, x := range got {
+						if x < 0 || x >= n || seen[x] {
+							return vk.Outcome{}, vk.Violf("sample-members", "%s(n=%d,k=%d) = %v", fn, n, k, got)
+						}
+						seen[x] = true
+					}
+					if len(got) != want {
+						return vk.Outcome{}, vk.Violf("sample-size", "%s(n=%d,k=%d) returned %d items", fn, n, k, len(got))
+					}
+					return vk.Outcome{NonTrivial: n >= 2}, nil
+				})
+				if !ok {
+					return
+				}
+			}
+		}
+	}
 	// larger inputs: sizes and membership only
 	for _, n := range []int{7, 50, 1000} {
 		for _, k := range []int{0, 1, n / 2, n, n + 3} {
